@@ -47,8 +47,8 @@ def translate_dispatch(ctx, proofs="GenDispatchProofs.v"):
     shutil.copy(os.path.join(C.COQ, "genproofs", proofs), gp)
     ctx.coq_file(gp, extra_q=[(ctx.gen_dir, "PqGen")])
     # the decision tables, evaluated in the kernel
-    exprs = ["map (fun w => [ic (v1_index_dispatch true w false); ic (v1_index_dispatch true w true); ic (v2_cat_dispatch true w false); "
-             "ic (v2_cat_dispatch true w true); ic (v2_deref_dispatch true w false); ic (v2_deref_dispatch true w true)]) widths_0_32",
+    exprs = ["map (fun w => flat_map (fun f : N -> bool -> bool -> idec => [ic (f w false false); ic (f w false true); ic (f w true false); "
+             "ic (f w true true)]) [v1_index_dispatch true; v2_cat_dispatch true; v2_deref_dispatch true]) widths_0_32",
              "map (fun t => [pc (read_plain_dispatch t 5 3 100 false false); pc (read_plain_dispatch t 5 3 100 true false); "
              "pc (read_plain_dispatch t 1 0 100 false true); pc (read_plain_dispatch t 1 0 100 true true); "
              "pc (read_plain_dispatch t 1 3 100 false false)]) [0;1;2;3;4;5;6;7;8]"]
@@ -59,10 +59,10 @@ def translate_dispatch(ctx, proofs="GenDispatchProofs.v"):
         ctx.obligation("decision tables of GenDispatch.v evaluate (vm_compute)", False, repr(res)[:500])
         return mode, None
     idx = {}
-    names = [("v1", False), ("v1", True), ("v2cat", False), ("v2cat", True), ("v2deref", False), ("v2deref", True)]
+    names = [(nm, sm, one) for nm in ("v1", "v2cat", "v2deref") for sm in (False, True) for one in (False, True)]
     for w, row in enumerate(tab[0]):
-        for (nm, sm), cell in zip(names, row):
-            idx[(nm, w, sm)] = tuple(int(x) for x in cell)
+        for (nm, sm, one), cell in zip(names, row):
+            idx[(nm, w, sm, one)] = tuple(int(x) for x in cell)
     plain = {}
     cols = [(5, 3, False, False), (5, 3, True, False), (1, 0, False, True), (1, 0, True, True), (1, 3, False, False)]
     for t, row in enumerate(tab[1]):
@@ -91,7 +91,7 @@ def observed_index(c, r):
 def model_index(tab, c):
     # (read_data_page_v2 sends RLE-encoded BOOLEAN values through the same branch as categorical codes)
     chain = "v1" if c["fn"] == "page_v1_dict" else ("v2cat" if (c.get("use_cat") or c.get("rle_bool")) else "v2deref")
-    d = tab["index"].get((chain, c["w"], bool(c.get("selfmade"))))
+    d = tab["index"].get((chain, c["w"], bool(c.get("selfmade")), bool(c["meta"].get("one_run", c.get("wform")))))
     if d is None:
         return None
     if d[0] == 2:
@@ -155,3 +155,27 @@ def writer_correspondence(ctx, mode, obs, limit=80):
         ctx.correspondence("regenerated %s (GenWriter.v, kernel evaluation) = bytes the real function wrote" % c["fn"],
                            {"fn": c["fn"], "n": len(c["vals"]), "version": c.get("version"), "no_nulls": c.get("no_nulls"), "dtype": c.get("dtype")},
                            got, r[1])
+
+
+# ---------------------------------------------------------------------------------------------
+# module-level state touched by the codec functions (translators/state2coq.py: an inventory, no fallback needed)
+# ---------------------------------------------------------------------------------------------
+
+def translate_state(ctx):
+    enc = os.path.join(C.REPO, "fastparquet", "encoding.py")
+    wr = os.path.join(C.REPO, "fastparquet", "writer.py")
+    p = subprocess.run([C.PY, os.path.join(C.VERIF, "translators", "state2coq.py"), enc, wr], stdout=subprocess.PIPE, stderr=subprocess.PIPE)
+    ctx.obligation("state2coq: inventory of module-level state of the codec functions produced", p.returncode == 0, p.stderr.decode()[-300:])
+    if p.returncode != 0:
+        return
+    gen = os.path.join(ctx.gen_dir, "GenState.v")
+    txt = p.stdout.decode()
+    if not os.path.exists(gen) or open(gen).read() != txt:
+        open(gen, "w").write(txt)
+    ok, out = C.coqc(gen, extra_q=[(ctx.gen_dir, "PqGen")])
+    ctx.obligation("GenState.v (regenerated from encoding.py / writer.py) compiles", ok, out)
+    if ok:
+        gp = os.path.join(ctx.gen_dir, "GenStateProofs.v")
+        shutil.copy(os.path.join(C.COQ, "genproofs", "GenStateProofs.v"), gp)
+        ctx.coq_file(gp, extra_q=[(ctx.gen_dir, "PqGen")])
+    ctx.extra["translator_state2coq"] = "translated"
